@@ -174,6 +174,8 @@ class FakeTLS:
     """stand-in for tls.Context after the handshake: any further handshake bytes are either
     consumed silently or refused with an alert (solver's choice)"""
 
+    honor_replay = False  # replay mode: take the recorded outcome instead of "consumed silently"
+
     def __init__(self, real):
         from aioquic import tls
 
@@ -190,7 +192,7 @@ class FakeTLS:
         if sx.length_of(data) == 0:
             return  # client start: producing the ClientHello does not fail
         self.calls += 1
-        c = sx.Choice("tls_outcome%d" % self.calls, 3) if sx.E.mode == "sym" else 0
+        c = sx.Choice("tls_outcome%d" % self.calls, 3) if (sx.E.mode == "sym" or FakeTLS.honor_replay) else 0
         if c == 1:
             raise tls.AlertUnexpectedMessage("unexpected message")
         if c == 2:
@@ -203,9 +205,12 @@ class FakeTLS:
 _TEMPLATES = {}
 
 
-def symbolize(conn):
-    """make a concretely built connection usable under the shims"""
+def symbolize(conn, keep_logger=False):
+    """make a concretely built connection usable under the shims (in replay mode: only the packet
+    protection and TLS stand-ins, so that two copies of one connection can be driven concretely)"""
     from aioquic import tls as tlsmod
+
+    loggers = (conn._quic_logger, conn._loss._quic_logger)
 
     for d in (conn._cryptos, conn._cryptos_initial):
         for k in list(d):
@@ -214,13 +219,13 @@ def symbolize(conn):
         conn._crypto_buffers[ep] = TwinBuffer(capacity=4096)
     conn.tls = FakeTLS(conn.tls)
     streams = list(conn._streams.values()) + list(conn._crypto_streams.values())
-    for st in streams:
+    for st in streams if sx.E.mode == "sym" else []:
         st.receiver._buffer = sx.SymByteArray(sx.SymBytes.of(bytes(st.receiver._buffer)))
         st.sender._buffer = sx.SymByteArray(sx.SymBytes.of(bytes(st.sender._buffer)))
     conn._quic_logger = None
     conn._loss._quic_logger = None
-    if hasattr(conn._loss, "_cc"):
-        pass
+    if keep_logger:
+        conn._quic_logger, conn._loss._quic_logger = loggers
     return conn
 
 
@@ -242,9 +247,10 @@ def clone(conn):
 class Peer:
     """what the harness needs to talk to `conn` as its peer"""
 
-    def __init__(self, conn, peer=None):
+    def __init__(self, conn, peer=None, model=False):
         self.conn = conn
         self.peer = peer  # real peer connection (replay mode only)
+        self.model = model  # replay against the transparent packet protection as well (C20 twins)
         self.pn = {}
 
     def addr(self):
@@ -283,7 +289,7 @@ class Peer:
                 b.push_uint16(plen + 0x4000)
                 header = header + b.data
         pnb = (pn & 0xFFFF).to_bytes(2, "big")
-        if sx.E.mode == "replay":
+        if sx.E.mode == "replay" and not self.model:
             crypto = self.peer._cryptos[epoch] if epoch != tls.Epoch.INITIAL else self.peer._cryptos_initial[conn._version]
             pay = bytes(payload)
             if len(pay) < 4:
